@@ -41,3 +41,7 @@ def run(ctx):
     from ..engines import jsonpairs as J7E
     J7E.j7_positional_settings(ctx)
     ctx.floor("J7", 1)
+    V.v18_class_objects_keep_nothing(ctx)
+    V.v17_quotient_bookkeeping(ctx)
+    ctx.floor("V18", 1)
+    ctx.floor("V17", 2)
